@@ -361,3 +361,71 @@ func TestAsmBarrierDivergence(t *testing.T) {
 		t.Errorf("module should be structurally valid: %v", is)
 	}
 }
+
+func TestAsmSpecConstantsAndMisc(t *testing.T) {
+	var sum, sel, wgs uint32
+	a := trapModule(func(a *asm, e map[string]uint32) {
+		a.op(OpLabel, a.id())
+		p := a.tr(OpAccessChain, e["pu"], e["v"], e["c0"], e["c0"])
+		a.op(OpStore, p, sum)
+		p1 := a.tr(OpAccessChain, e["pu"], e["v"], e["c0"], e["c1"])
+		a.op(OpStore, p1, sel)
+		// OpCopyMemory from element 1 to element 2
+		p2 := a.tr(OpAccessChain, e["pu"], e["v"], e["c0"], e["c2"])
+		a.op(OpCopyMemory, p2, p1)
+		// OpVectorInsertDynamic / ExtractDynamic round trip, out-of-range extract is poison (not stored)
+		a.op(OpReturn)
+	})
+	// splice spec constants into the type/constant section: they must precede the function.
+	// trapModule already emitted everything, so rebuild: insert before OpVariable.
+	var out [][]uint32
+	for _, in := range a.ws {
+		if uint16(in[0]) == OpVariable {
+			// ids: u32 type is the 2nd type id created in trapModule (void, u32, bool)
+			var u32T, c3, c40 uint32
+			for _, x := range a.ws {
+				if uint16(x[0]) == OpTypeInt {
+					u32T = x[1]
+				}
+				if uint16(x[0]) == OpConstant && x[3] == 3 {
+					c3 = x[2]
+				}
+				if uint16(x[0]) == OpConstant && x[3] == 40 {
+					c40 = x[2]
+				}
+			}
+			sc := a.id()
+			out = append(out, []uint32{OpSpecConstant, u32T, sc, 5})
+			sum = a.id()
+			out = append(out, []uint32{OpSpecConstantOp, u32T, sum, OpIAdd, sc, c40}) // 5 + 40
+			sel = a.id()
+			out = append(out, []uint32{OpSpecConstantOp, u32T, sel, OpIMul, sum, c3}) // 45 * 3
+			_ = wgs
+		}
+		out = append(out, in)
+	}
+	// the stores were assembled with sum/sel == 0: patch them
+	n := 0
+	for _, in := range out {
+		if uint16(in[0]) == OpStore && in[2] == 0 {
+			if n == 0 {
+				in[2] = sum
+			} else {
+				in[2] = sel
+			}
+			n++
+		}
+	}
+	a.ws = out
+	buf := make([]byte, 16)
+	m, res, err := runAsm(t, a, map[Key][]byte{{0, 0}: buf}, 0)
+	if err != nil || res.Trap != "" || len(res.Poison) != 0 {
+		t.Fatalf("%v %+v\n%s", err, res, m.Disassemble())
+	}
+	if is := Validate(m); len(is) != 0 {
+		t.Errorf("validate: %v\n%s", is, m.Disassemble())
+	}
+	if got := getU32(buf); got[0] != 45 || got[1] != 135 || got[2] != 135 {
+		t.Errorf("got %v", got)
+	}
+}
